@@ -648,6 +648,11 @@ func (x *Exec) external(st *State, fn *ssa.Function, args []Val, pos token.Pos) 
 		return fltFloor(args[0].(VFlt)), true
 	case "math.Ceil":
 		return fltCeil(args[0].(VFlt)), true
+	case "math.Modf":
+		f := args[0].(VFlt)
+		ip := VFlt{N: fltTrunc(VFlt{N: f.N, D: f.D}), D: term.I(1)}
+		fr := normFlt(term.Sub(f.N, term.Mul(ip.N, f.D)), f.D)
+		return VTuple{ip, fr}, true
 	case "(*sync.Mutex).Lock":
 		x.lockOp(st, args[0].(VT).T, true, pos)
 		return nil, true
